@@ -33,6 +33,7 @@ type c06Node struct {
 	V    string     `json:"v,omitempty"`
 	Set  []string   `json:"set,omitempty"`
 	Kids []*c06Node `json:"kids,omitempty"`
+	Cl   bool       `json:"-"` // root of a same-label cluster
 }
 
 var c06LeafKinds = []string{
@@ -101,7 +102,79 @@ func c06GenLeaf(t *rapid.T) *c06Node {
 	return n
 }
 
+// c06GenCluster generates a sub-expression whose terms mostly restrict ONE label with values
+// from a small pool (in / not in sets of 3+ items, ==, !=) combined by && and ||, plus a
+// few has() terms on other labels, so that value restrictions on the same label meet in
+// every combination of nesting.
+func c06GenCluster(t *rapid.T, depth int, label string, pool []string) *c06Node {
+	k := 0
+	if depth > 0 {
+		k = rapid.IntRange(0, 9).Draw(t, "clNode")
+	}
+	switch {
+	case k <= 3:
+		switch rapid.SampledFrom([]string{"inBig", "inBig", "inBig", "inSmall", "eq", "eq", "has", "has", "notin", "ne"}).Draw(t, "clLeaf") {
+		case "inBig", "notinBig":
+			n := &c06Node{K: "in", L: label, Set: []string{}}
+			cnt := rapid.IntRange(3, 7).Draw(t, "clSetLen")
+			for i := 0; i < cnt; i++ {
+				n.Set = append(n.Set, rapid.SampledFrom(pool).Draw(t, "clSetVal"))
+			}
+			return n
+		case "inSmall":
+			n := &c06Node{K: "in", L: label, Set: []string{}}
+			cnt := rapid.IntRange(1, 2).Draw(t, "clSetLen")
+			for i := 0; i < cnt; i++ {
+				n.Set = append(n.Set, rapid.SampledFrom(pool).Draw(t, "clSetVal"))
+			}
+			return n
+		case "notin":
+			n := &c06Node{K: "notin", L: label, Set: []string{}}
+			cnt := rapid.IntRange(1, 5).Draw(t, "clSetLen")
+			for i := 0; i < cnt; i++ {
+				n.Set = append(n.Set, rapid.SampledFrom(pool).Draw(t, "clSetVal"))
+			}
+			return n
+		case "eq":
+			return &c06Node{K: "eq", L: label, V: rapid.SampledFrom(pool).Draw(t, "clVal")}
+		case "ne":
+			return &c06Node{K: "ne", L: label, V: rapid.SampledFrom(pool).Draw(t, "clVal")}
+		default:
+			return &c06Node{K: "has", L: rapid.SampledFrom([]string{"b", "c"}).Draw(t, "clOtherLabel")}
+		}
+	case k == 4:
+		return &c06Node{K: "not", Kids: []*c06Node{c06GenCluster(t, depth-1, label, pool)}}
+	default:
+		n := &c06Node{K: "and"}
+		if k >= 7 {
+			n.K = "or"
+		}
+		cnt := rapid.IntRange(2, 3).Draw(t, "clArity")
+		for i := 0; i < cnt; i++ {
+			n.Kids = append(n.Kids, c06GenCluster(t, depth-1, label, pool))
+		}
+		return n
+	}
+}
+
+var c06ClusterPools = [][]string{
+	{"v", "w", "x", "y", "z"},
+	{"", "a", "ab", "b", "it's", `q"t`},
+	{"1", "10", "2", "A", "a", "é"},
+}
+
 func c06GenNode(t *rapid.T, depth int, root bool) *c06Node {
+	if depth >= 2 && rapid.IntRange(0, 4).Draw(t, "cluster") == 0 {
+		label := rapid.SampledFrom([]string{"a", "k8s.io/name", "in", "x-y_z"}).Draw(t, "clLabel")
+		pool := rapid.SampledFrom(c06ClusterPools).Draw(t, "clPool")
+		d := depth
+		if d > 3 {
+			d = 3
+		}
+		n := c06GenCluster(t, d, label, pool)
+		n.Cl = true
+		return n
+	}
 	w := 0
 	if depth > 0 {
 		lo := 0
@@ -326,6 +399,12 @@ func (r *c06Renderer) leaf(n *c06Node) string {
 
 func (r *c06Renderer) render(n *c06Node) c06Text {
 	var out c06Text
+	if n.Cl {
+		r.classes["same-label-cluster"] = true
+	}
+	if (n.K == "in" || n.K == "notin") && len(n.Set) >= 3 {
+		r.classes["set>=3"] = true
+	}
 	switch n.K {
 	case "not":
 		x := r.render(n.Kids[0])
@@ -547,6 +626,65 @@ func c06Short(s string) string {
 // c06CheckString applies the statement's oracle to one input string.  ast may be nil (then
 // the independent evaluator is not consulted).  Returns whether the parser accepted s and
 // how many maps evaluated true / false.
+// c06Queries performs, in a generated order, the read-only queries that real callers make on
+// a parsed selector (label restrictions, canonical text, identity hash, evaluation) and then
+// requires that the selector still means what its canonical text says: same text, same hash,
+// and the same Evaluate result as before and as a fresh parse of the canonical text.
+func c06Queries(t *rapid.T, s, canon string, p, p2 *selector.Selector, maps []map[string]string, before []bool) {
+	describe := func() string {
+		return fmt.Sprintf("  input:     %s\n  canonical: %s", c06Short(s), c06Short(canon))
+	}
+	readRestrictions := func(sel *selector.Selector) {
+		lrs := sel.LabelRestrictions()
+		n := 0
+		for _, r := range lrs.All() {
+			n += len(r.MustHaveOneOfValues)
+			_ = r.PossibleToSatisfy()
+		}
+		_ = lrs.String()
+		_ = n
+	}
+	evalAll := func(who string, sel *selector.Selector, after string) {
+		for i, m := range maps {
+			if got := sel.Evaluate(m); got != before[i] {
+				t.Fatalf("selector no longer matches the label sets its canonical text stands for after read-only queries (%s):\n%s\n  labels:    %s\n  %s.Evaluate: %v before the queries, %v after", after, describe(), c06FmtMap(m), who, before[i], got)
+			}
+		}
+	}
+	var done []string
+	nq := rapid.IntRange(1, 4).Draw(t, "numQueries")
+	for i := 0; i < nq; i++ {
+		q := rapid.SampledFrom([]string{"restrictions", "restrictions", "restrictions-of-reparsed", "evaluate", "text"}).Draw(t, "query")
+		done = append(done, q)
+		switch q {
+		case "restrictions":
+			readRestrictions(p)
+		case "restrictions-of-reparsed":
+			readRestrictions(p2)
+		case "evaluate":
+			evalAll("original", p, strings.Join(done, ","))
+		case "text":
+			if p.String() != canon || p2.String() != canon {
+				t.Fatalf("canonical text changed after read-only queries (%s):\n%s\n  now: %s / %s", strings.Join(done, ","), describe(), c06Short(p.String()), c06Short(p2.String()))
+			}
+			if p.UniqueID() != p2.UniqueID() {
+				t.Fatalf("identity hash changed after read-only queries (%s):\n%s", strings.Join(done, ","), describe())
+			}
+		}
+	}
+	after := strings.Join(done, ",")
+	p3, err := selector.Parse(canon)
+	if err != nil {
+		t.Fatalf("canonical text stopped parsing: %v\n%s", err, describe())
+	}
+	if p.String() != canon || p3.String() != canon || p.UniqueID() != p3.UniqueID() {
+		t.Fatalf("canonical text / identity hash changed after read-only queries (%s):\n%s\n  now: %s, fresh parse: %s", after, describe(), c06Short(p.String()), c06Short(p3.String()))
+	}
+	evalAll("original", p, after)
+	evalAll("parsed-back", p2, after)
+	evalAll("freshly parsed-back", p3, after)
+}
+
 func c06CheckString(t *rapid.T, s string, ast *c06Node, maps []map[string]string) (accepted bool, nTrue, nFalse int) {
 	verr := selector.Validate(s)
 	p, perr := selector.Parse(s)
@@ -573,9 +711,11 @@ func c06CheckString(t *rapid.T, s string, ast *c06Node, maps []map[string]string
 	if p2.UniqueID() != p.UniqueID() {
 		t.Fatalf("identity hash changes through canonical text:\n  input:     %s\n  canonical: %s\n  UniqueID %s vs %s", c06Short(s), c06Short(canon), p.UniqueID(), p2.UniqueID())
 	}
+	before := make([]bool, 0, len(maps))
 	for _, m := range maps {
 		g1 := p.Evaluate(m)
 		g2 := p2.Evaluate(m)
+		before = append(before, g1)
 		if g1 != g2 {
 			t.Fatalf("meaning changes through canonical text:\n  input:     %s\n  canonical: %s\n  labels:    %s\n  original matches=%v, parsed-back matches=%v", c06Short(s), c06Short(canon), c06FmtMap(m), g1, g2)
 		}
@@ -590,6 +730,7 @@ func c06CheckString(t *rapid.T, s string, ast *c06Node, maps []map[string]string
 			nFalse++
 		}
 	}
+	c06Queries(t, s, canon, p, p2, maps, before)
 	return true, nTrue, nFalse
 }
 
